@@ -233,8 +233,12 @@ Definition lp_count_roots_gen (repaired : bool) (S : list poly) (J : option ri_i
   | Some J =>
     let a := Fin (qlo_n J) (qlo_d J) in
     let b := Fin (qhi_n J) (qhi_d J) in
-    let c := Z.of_nat (lp_sign_changes S a n) - Z.of_nat (lp_sign_changes S b n) in
     let s0 := hd [] S in
+    (* repaired (fixes/C06-roots-count-point-interval.patch): a point interval [a,a] has one root iff a is a
+       root; the pinned code reads the unconstructed interval->b there (undefined, not modelled) *)
+    if repaired && (qlo_n J * qhi_d J =? qhi_n J * qlo_d J) then (if psgn_at s0 a =? 0 then 1 else 0)
+    else
+    let c := Z.of_nat (lp_sign_changes S a n) - Z.of_nat (lp_sign_changes S b n) in
     let c := if qhi_open J && (psgn_at s0 b =? 0) then c - 1 else c in
     let a_is_root := psgn_at s0 a =? 0 in
     if negb (qlo_open J) && (if repaired then a_is_root else negb a_is_root) then c + 1 else c
